@@ -219,7 +219,12 @@ REG.contract(S + "scan", params={"add_intercept": "bool"}, returns="list[Tok]", 
                                        "forall(0, len(self.tokens), lambda k: self.tokens[k] is not None)"],
                             modifies=["self.start", "self.current", "self.tokens"])})
 
-FUNCTIONS = [S + f for f in ("scan", "at_end", "advance", "peek", "peek_next", "match", "add_token", "floatnum", "number", "identifier",
+# the scanner reads exactly the characters it was given (no rewriting of the text before scanning: blanks inside literals are the user's)
+REG.contract(S + "__init__", params={"code": "list[char]"}, tags=TAGS, modifies=["self.code", "self.start", "self.current", "self.tokens"],
+             raises={"ScanError": "len(code) == 0"},
+             ensures=["self.code == code", "self.start == 0", "self.current == 0", "len(self.tokens) == 0", "len(code) > 0"])
+
+FUNCTIONS = [S + f for f in ("__init__", "scan", "at_end", "advance", "peek", "peek_next", "match", "add_token", "floatnum", "number", "identifier",
                              "char", "backquote", "scan_token")]
 ASSUMPTIONS = ["strings are lists of code points; str.isdigit/isalpha/isalnum are uninterpreted predicates with the facts the scanner "
                "relies on (isalpha or isdigit implies isalnum - NOT an equivalence in CPython; isdigit excludes isalpha; ASCII digits are digits; blanks, quotes and operator characters are none of the three; "
